@@ -19,7 +19,7 @@ CLAIMED = {
         technique='Lean 4 refinement proof (stepper model refines small-step semantics) + differential correspondence on generated outlines',
         design='6/C09'),
     'C11': dict(
-        text='Lean theorems C11_accepts_iff / C11_validate_iff (construction succeeds iff the inputs completed by the declared defaults '
+        text='Lean theorems C11_accepts_iff / C11_validate_iff / C11_accepts_iff_decl (construction succeeds iff the inputs completed by the declared defaults '
              'conform to the spec, for every nested port tree, every nested input dictionary and every validator oracle), '
              'C11_defaults_exact (the parsed inputs are the raw inputs completed with exactly the declared defaults, per key at every '
              'declared level; C11_supplied_preserved is its path form), C11_frozen_levels (every declared namespace level is a frozen '
@@ -29,8 +29,9 @@ CLAIMED = {
              'immutability by mutation attempts, raw_inputs and the caller\'s dictionary, and that a second construction agrees.',
         note='Modelled, not verified: PortNamespace.pre_process / validate / validate_ports / validate_dynamic_ports, Port.validate, '
              'InputPort.required_override, Process.on_create (hand-written Lean mirror, differential check per case). Non-mutation of '
-             'raw_inputs and of the caller\'s dictionary is decided by the correspondence check only. C11_accepts_iff_full (completion '
-             'given by the per-key relation instead of the model function) is stated, only its forward direction is proved.',
+             'raw_inputs and of the caller\'s dictionary is decided by the correspondence check only. C11_accepts_iff_decl (completion '
+             'given by the per-key relation DefaultsExact instead of the model function) assumes validators that cannot tell two '
+             'completions of the same inputs apart (key order).',
         technique='Lean 4 proof by mutual structural induction over port trees (model validate = declarative Conforms; pre_process = '
                   'declarative completion) + differential correspondence on generated specs and inputs',
         design='6/C11'),
